@@ -1438,6 +1438,22 @@ class Macro:
             res_tokens.append(tok)
         self.replacement = res_tokens
 
+        if isinstance(self, MacroFunction):
+            # An argument is macro-expanded before substitution only if its
+            # parameter occurs other than as an operand of # or ##.
+            self.arg_needs_expansion = [False for x in self.args]
+            for i, tok in enumerate(res_tokens):
+                if not isinstance(tok, Identifier):
+                    continue
+                arg_idx = self.which_arg(tok.token)
+                if arg_idx == -1:
+                    continue
+                if i > 0 and res_tokens[i - 1].token in ("#", "##"):
+                    continue
+                if i + 1 < len(res_tokens) and res_tokens[i + 1].token == "##":
+                    continue
+                self.arg_needs_expansion[arg_idx] = True
+
     def __repr__(self):
         return _representation_string(self)
 
